@@ -256,7 +256,7 @@ func (s *Stats) Flush() {
 	}
 	s.mu.Lock()
 	doc := statsDoc{
-		Property: s.Property, Part: s.Part, Evaluations: s.evaluations,
+		Property: s.Property, Part: s.Part + os.Getenv("VERIF_PART_SUFFIX"), Evaluations: s.evaluations,
 		Classes: map[string]int64{}, Samples: s.samples, Excluded: s.excluded,
 		Inconclusive: append([]string{}, s.inconclusive...), Extra: map[string]interface{}{},
 		Exhaustive: s.exhaustive, Rule: s.rule, WallS: time.Since(s.start).Seconds(),
@@ -296,8 +296,8 @@ func (s *Stats) Flush() {
 	if shard == "" {
 		shard = "0"
 	}
-	tmp := filepath.Join(dir, fmt.Sprintf(".%s-%s-%s.tmp", s.Property, s.Part, shard))
-	final := filepath.Join(dir, fmt.Sprintf("%s-%s-%s.json", s.Property, s.Part, shard))
+	tmp := filepath.Join(dir, fmt.Sprintf(".%s-%s-%s.tmp", s.Property, doc.Part, shard))
+	final := filepath.Join(dir, fmt.Sprintf("%s-%s-%s.json", s.Property, doc.Part, shard))
 	if os.WriteFile(tmp, b, 0o644) == nil {
 		_ = os.Rename(tmp, final)
 	}
